@@ -23,7 +23,7 @@ pub struct TokenKindExtras {
 #[serde(tag = "type")]
 #[logos(extras = TokenKindExtras)]
 pub enum TokenKind {
-    #[regex(r"[ \t\r\n\f,\ufeff]+|#[^\n\r]*", logos::skip)]
+    #[regex(r"[ \t\r\n,\ufeff]+|#[^\n\r]*", logos::skip)]
     #[error]
     Error,
 
